@@ -97,7 +97,8 @@ def check_consume(ctx, fx, cfg, floor, RULE="R18.1"):
                 ctx.require(bool(how), RULE, "consumed:%s@%s" % (s, cfg), "the handle returned by spawn_actor is neither detached nor handed to the caller", fn=s, site=t["l"], detail=sorted(how))
                 # what is spawned is the loop created from the actor in this function
                 rs = b.origins(t["args"][0])
-                ok = all(o.kind == "call" and (b.call_at(o).get("callee") or "").startswith("environment::Environment::<A, R>::create_loop") and o.proj[:1] == ("f0",) for o in rs)
+                ph = loops.pair_helpers(fx)
+                ok = bool(rs) and all(o.kind == "call" and o.proj[:1] == ("f0",) and ((b.call_at(o).get("callee") or "").startswith("environment::Environment::<A, R>::create_loop") or (b.call_at(o).get("resolved") or b.call_at(o).get("callee")) in ph) for o in rs)
                 ctx.require(ok, RULE, "spawns-its-loop:%s@%s" % (s, cfg), "what is spawned is not the event loop created here", fn=s, site=t["l"])
 
 
@@ -134,9 +135,9 @@ def check_runtime(ctx, fx, cfg):
                             cdef = b.blocks[o.site[0]]["s"][o.site[1]]["r"].get("def")
                             c = fx.fn(cdef)
                             if c:
-                                cb = ctx.body(fx, c)
-                                takes = any((x.get("callee") or "").endswith("option::{impl#0}::take") for _, x in cb.normal_calls())
-                                dets = [x for _, x in cb.normal_calls() if (x.get("callee") or "").startswith("async_task::") and (x.get("callee") or "").endswith("::detach")]
+                                cbs = [ctx.body(fx, g_) for g_ in graph.with_forwarded(fx, c)]  # the closure or the named function it forwards to
+                                takes = any((x.get("callee") or "").endswith("option::{impl#0}::take") for cb in cbs for _, x in cb.normal_calls())
+                                dets = [x for cb in cbs for _, x in cb.normal_calls() if (x.get("callee") or "").startswith("async_task::") and (x.get("callee") or "").endswith("::detach")]
                                 okd = takes and len(dets) == 1
                     # and the returned ActorHandle is the one with the detach fn
                     okd = okd and (wd[0]["dest"] == [0] or any(s["k"] == "ret" for s in sinks(b, wd[0]["dest"][0])))
